@@ -18,8 +18,8 @@ type Property struct {
 	Explanation string
 	Rules       []func(*Ctx)
 	Thorough    []func(*Ctx) // extra rules/scope of the thorough tier
-	Level       string // what assurance, in our own words
-	Note        string // trusted base / assumptions for the level
+	Level       string       // what assurance, in our own words
+	Note        string       // trusted base / assumptions for the level
 	Technique   string
 	Trusted     []string
 	NotDecided  []string
